@@ -150,6 +150,47 @@ fn check(text: &[u8], rep: &mut Reporter, case_idx: u64, slow: bool) {
         }
         n += step;
     }
+    // ---- strict prefixes placed at every address residue modulo 8 (a cache embedded in a
+    // larger blob, a Vec<u32>-backed buffer): rejected, or answering like the full file
+    {
+        let mut padded = vec![0u8; bytes.len() + 8];
+        for skew in 1..8usize {
+            padded.iter_mut().for_each(|b| *b = 0);
+            padded[skew..skew + bytes.len()].copy_from_slice(&bytes);
+            let holder = AlignedBuf::from_bytes(&padded);
+            let lens: Vec<usize> = if skew == 4 {
+                (0..bytes.len()).collect()
+            } else {
+                [0usize, 23, 24, bytes.len().saturating_sub(4), bytes.len().saturating_sub(1)].into_iter().filter(|n| *n < bytes.len()).collect()
+            };
+            for n in lens {
+                let prefix = &holder.as_slice()[skew..skew + n];
+                rep.count("evaluations", 1);
+                rep.count("prefixes_at_unaligned_addresses", 1);
+                if let Ok(c) = cur::parse_cache(prefix) {
+                    rep.count("prefixes_accepted_at_unaligned_addresses", 1);
+                    let mk = || {
+                        let mut d = mapping_detail(text, "");
+                        d.set("prefix_len", Json::i(n as u64));
+                        d.set("file_len", Json::i(bytes.len() as u64));
+                        d.set("address_modulo_8", Json::i(skew as u64));
+                        d
+                    };
+                    diff_remap(
+                        &full,
+                        &c,
+                        &u,
+                        &ex,
+                        &DiffOpts { la: "full file", lb: "accepted prefix", by_params: true, typed: true, signature_prefix: "accepted strict prefix at an address that is not 8-byte aligned: " },
+                        rep,
+                        case_idx,
+                        0,
+                        &mk,
+                    );
+                }
+            }
+        }
+    }
     // ---- single-field header edits
     let hdr = layout.hdr;
     let mut edits: Vec<(usize, &str, u32)> = vec![];
